@@ -5,7 +5,7 @@ VERIF="$(cd "$(dirname "${BASH_SOURCE[0]}")/.." && pwd)"
 TIER="${1:-quick}"; miss=0; n=0
 for d in "$VERIF"/seeded/*/; do
   id="$(basename "$d")"
-  prop="$(python3 -c "import json,sys;print(json.load(open('$d/meta.json'))['detected_by'].split(':')[0])")"
+  prop="$(python3 -c "import json,sys;m=json.load(open('$d/meta.json'));print('SKIP' if m['detected_by'].startswith('NOT') else m['detected_by'].split(':')[0])")"; if [ "$prop" = SKIP ]; then echo "SCOPED-OUT $id (see meta.json: why_not)"; continue; fi
   out="$(MUT_TARGET="${MUT_TARGET:-/tmp/pkgsim-mut-target}" "$VERIF/tools/mutant.sh" "$d/patch.diff" "$prop" --tier "$TIER" 2>&1)"; rc=$?
   sigs="$(echo "$out" | grep '^violation:' | sed -E 's/.*signature=([^ ]+).*/\1/' | cut -c1-60 | sort -u | tr '\n' ',')"
   n=$((n+1))
